@@ -38,7 +38,7 @@ def plan(tier, seed):
     return plan_items(tier, seed, n_gen_quick=8, n_gen_thorough=200, n_quick=70, n_thorough=500)
 
 
-def observers(b, mi):
+def observers(b, mi, peer=None):
     import betterproto
 
     C, S = betterproto.Casing.CAMEL, betterproto.Casing.SNAKE
@@ -74,6 +74,8 @@ def observers(b, mi):
         "len": lambda m: len(m),
         "eq-self": lambda m: m == m,
         "eq-fresh": lambda m: m == type(m)(),
+        # comparison with a DIFFERENT message of the same type (other oneof members selected, other fields set)
+        "eq-other": (lambda m: (m == peer, peer == m)) if peer is not None else (lambda m: m == type(m)()),
         "bool": lambda m: bool(m),
         "repr": lambda m: repr(m),
         "to_dict-camel": lambda m: m.to_dict(casing=C),
@@ -119,7 +121,13 @@ def run_observers(obs, seq, m, res):
 
 
 def check_case(b, bp, ref, mi, tree, res: Result, w, rng):
-    obs = observers(b, mi)
+    from ..values import Gen
+
+    try:
+        peer = bp.make(mi, Gen(b, __import__("random").Random(hash(repr(sorted(tree))) & 0xFFFF), max_depth=2).tree(mi, 0, "maximal"), "ctor")
+    except Exception:
+        peer = None
+    obs = observers(b, mi, peer)
     names = sorted(obs)
     wg = WireGen(b, rng)
     known = {f.number for f in mi.fields}
@@ -285,6 +293,31 @@ def _mutate(c) -> str:
     import betterproto
 
     done = []
+    # select another member in every oneof group of the copy (or one, if none is selected)
+    from ..monitors import _groups
+
+    for g, members in _groups(type(c)).items():
+        try:
+            cur, _ = betterproto.which_one_of(c, g)
+        except Exception:
+            continue
+        for nm in members:
+            if nm == cur:
+                continue
+            hint = None
+            try:
+                hint = type(c)._type_hints().get(nm)
+            except Exception:
+                pass
+            val = {int: 3, str: "sw", bool: True, float: 1.5, bytes: b"sw"}.get(hint)
+            if val is None:
+                continue
+            try:
+                setattr(c, nm, val)
+                done.append("oneof-switch")
+                break
+            except Exception:
+                continue
     for nm in attr_names(type(c)).values():
         try:
             v = getattr(c, nm)
